@@ -233,6 +233,7 @@ type ProposeCtx struct {
 	Ops     map[string]int
 	// deposits the state already expects (before this block's eth1 vote)
 	PendingDeposits uint64
+	preSlot         common.Slot // slot of the pre-state (corruption stream)
 }
 
 func (p *ProposeCtx) domain(dt common.BLSDomainType, e common.Epoch) common.BLSDomain {
